@@ -442,7 +442,8 @@ class SymStr(Sym):
                 src = None
                 if self.src is not None and self.src[1] is None:
                     src = (self.src[0], a, b)
-                return SymStr(t, [('atom', t, segs[0][2])], src)     # a slice of an atom keeps its character class
+                seg = ('atom', t, segs[0][2], src) if src is not None else ('atom', t, segs[0][2])
+                return SymStr(t, [seg], src)     # a slice of an atom keeps its character class
             # literal prefix long enough to answer syntactically
             lit = 0
             i = 0
@@ -659,6 +660,12 @@ def _seg_eq(a, b):
     sa, sb = _norm_segs(a), _norm_segs(b)
     if sa is None or sb is None:
         return None
+    if len(sa) == 1 and len(sb) == 1 and sa[0][0] == 'atom' and sb[0][0] == 'atom' and len(sa[0]) == 4 \
+            and len(sb[0]) == 4 and sa[0][3][1:] == sb[0][3][1:] and sa[0][3][1] is not None:
+        # two digests H(text)[a:b] with the same slice: equal iff the hashed texts are equal (congruence one way,
+        # the collision-freedom assumption on H the other way); the texts are structured, the digests are not
+        ta, tb = sa[0][3][0], sb[0][3][0]
+        return (ta == tb) if isinstance(ta, Sym) else ((tb == ta) if isinstance(tb, Sym) else ta == tb)
     if len(sa) == len(sb) and all(x[0] == y[0] and (x[1] == y[1] if x[0] == 'lit' else x[1].eq(y[1])) for x, y in
                                   zip(sa, sb)):
         return True
